@@ -66,8 +66,8 @@ macro_rules! rt_harness {
     };
 }
 
-fn p_of(n: u8) -> P {
-    P { n, b: if n == 0 { 0 } else { kani::any() } }
+fn p_of<const N: usize>(n: u8) -> PN<N> {
+    PN::new(n, if n == 0 { 0 } else { kani::any() })
 }
 
 // all u64 values, fixed-size variants (frame = 4 tag + 16 + 8 checksum)
@@ -336,7 +336,7 @@ fn decode_append(n: u8) {
         Ok(WALRecord::Append(id, p)) => {
             kani::cover!(true, "some buffer is accepted");
             assert!(n <= P_MAX && p.n == n);
-            let p2 = P { n, b: if n == 0 { 0 } else { p.b } };
+            let p2 = P::new(n, if n == 0 { 0 } else { p.b });
             check_canonical::<KTypes>(WALRecord::Append(id, p2), &buf, consumed);
         }
         Ok(r) => {
